@@ -121,12 +121,17 @@ structure PutRel (now : ℚ) (a a' : A) : Prop where
         (∃ q', a'.pend = a.pend ++ [q'] ∧ q'.time = now ∧ q'.prio = NORMAL ∧ a'.S.tokens = a.S.tokens + 1 ∧ a'.putAt = now)
   sub : (AL.keys a'.S.timers).Sublist (AL.keys a.S.timers)
   tm : ∀ seq, CancelRel now a a' seq
+  fr : a'.S.kind = a.S.kind ∧ a'.S.mss = a.S.mss ∧ a'.S.size = a.S.size ∧ a'.S.next_seq = a.S.next_seq ∧
+       a'.S.send_buffer = a.S.send_buffer ∧ a'.S.proc = a.S.proc ∧ a'.S.now = a.S.now
 
 /-- a change of the LTS state that leaves `timers` and `tokens` alone -/
 theorem PutRel.of_S {now : ℚ} {a : A} (S' : Sender ℚ) (txs' : List (Nat × ℚ)) (ht : S'.timers = a.S.timers)
-    (hk : S'.tokens = a.S.tokens) : PutRel now a { a with S := S', txs := txs' } :=
+    (hk : S'.tokens = a.S.tokens)
+    (hf : S'.kind = a.S.kind ∧ S'.mss = a.S.mss ∧ S'.size = a.S.size ∧ S'.next_seq = a.S.next_seq ∧
+       S'.send_buffer = a.S.send_buffer ∧ S'.proc = a.S.proc ∧ S'.now = a.S.now) :
+    PutRel now a { a with S := S', txs := txs' } :=
   ⟨rfl, rfl, rfl, rfl, rfl, rfl, Or.inl ⟨rfl, hk, rfl⟩, by show (AL.keys S'.timers).Sublist _; rw [ht],
-    fun seq => Or.inl ⟨by show AL.get? seq S'.timers = _; rw [ht], rfl⟩⟩
+    fun seq => Or.inl ⟨by show AL.get? seq S'.timers = _; rw [ht], rfl⟩, hf⟩
 
 theorem cCwnd_cell {c : CCState ℚ} {s : KS} (h : ∀ x ∈ ccCells c, lookup s.shared x.1 = x.2) :
     lookup s.shared cCwnd = TimeCell.enc c.cwnd :=
@@ -163,6 +168,7 @@ theorem frag_put {cfg : Cfg} (h : KI (some p) s a) (hinv : Inv a.S) (hkind : a.S
         ({ a.S.countDup x.ackno with cc := CongestionControl.consecutive_dupacks_received (a.S.countDup x.ackno).cc } : Sender ℚ)
         x.ackno
       exact PutRel.of_S _ _ (f10.trans c8) (f11.trans c10)
+        ⟨f1.trans c1, f4.trans c3, f5.trans c4, f6.trans c5, f7.trans c6, f12.trans c11, f13.trans c12⟩
   · by_cases dgt : (a.S.countDup x.ackno).dupack > 3
     · -- further duplicates
       have h2 := h1.set_cc (CongestionControl.more_dupacks_received (a.S.countDup x.ackno).cc)
@@ -181,9 +187,10 @@ theorem frag_put {cfg : Cfg} (h : KI (some p) s a) (hinv : Inv a.S) (hkind : a.S
             ({ a.S.countDup x.ackno with cc := CongestionControl.more_dupacks_received (a.S.countDup x.ackno).cc } : Sender ℚ)
             x.ackno
           exact PutRel.of_S _ _ (f10.trans c8) (f11.trans c10)
+            ⟨f1.trans c1, f4.trans c3, f5.trans c4, f6.trans c5, f7.trans c6, f12.trans c11, f13.trans c12⟩
       · refine ⟨_, { a with S := { a.S.countDup x.ackno with
             cc := CongestionControl.more_dupacks_received (a.S.countDup x.ackno).cc }, txs := a.txs }, [],
-          fun cont => ?_, h2, ?_, by simp, PutRel.of_S _ _ c8 c10⟩
+          fun cont => ?_, h2, ?_, by simp, PutRel.of_S _ _ c8 c10 ⟨c1, c3, c4, c5, c6, c11, c12⟩⟩
         · rw [hstart, if_neg d3, if_pos dgt, rb_ccCall h1, rb_loadTime (cCwnd_cell h2.c.cc), if_neg hw]
         · rw [if_neg d3, if_pos dgt]
           unfold Sender.moreDup
@@ -233,7 +240,18 @@ theorem frag_put {cfg : Cfg} (h : KI (some p) s a) (hinv : Inv a.S) (hkind : a.S
           have hcov : (sAck (a.S.countDup x.ackno) x).covered x.ackno x.pid =
               (AL.keys (sAck (a.S.countDup x.ackno) x).timers).filter (covCond x.ackno x.pid) := rfl
           rw [hcov, hdrop]
-        · refine ⟨g1, g2, g4, g5, g6, g9, Or.inr ⟨q', ?_, hq1.trans c12, hq2, ?_, c12⟩, ?_, ?_⟩
+        · obtain ⟨k1, _, _, k4, k5, k6, k7, _, _, _, k11, k12⟩ := cancelS_fields (covCond x.ackno x.pid)
+            (cands cfg.mss 0 ((a.S.countDup x.ackno).next_seq / cfg.mss)) (sAck (a.S.countDup x.ackno) x)
+          have hfr : (aNewAck cfg { a with S := a.S.countDup x.ackno } x q').S.kind = a.S.kind ∧
+              (aNewAck cfg { a with S := a.S.countDup x.ackno } x q').S.mss = a.S.mss ∧
+              (aNewAck cfg { a with S := a.S.countDup x.ackno } x q').S.size = a.S.size ∧
+              (aNewAck cfg { a with S := a.S.countDup x.ackno } x q').S.next_seq = a.S.next_seq ∧
+              (aNewAck cfg { a with S := a.S.countDup x.ackno } x q').S.send_buffer = a.S.send_buffer ∧
+              (aNewAck cfg { a with S := a.S.countDup x.ackno } x q').S.proc = a.S.proc ∧
+              (aNewAck cfg { a with S := a.S.countDup x.ackno } x q').S.now = a.S.now := by
+            rw [hS]
+            exact ⟨k1.trans c1, k4.trans c3, k5.trans c4, k6.trans c5, k7.trans c6, k11.trans c11, k12.trans c12⟩
+          refine ⟨g1, g2, g4, g5, g6, g9, Or.inr ⟨q', ?_, hq1.trans c12, hq2, ?_, c12⟩, ?_, ?_, hfr⟩
           · show (aAck4 cfg _ x).pend ++ [q'] = a.pend ++ [q']
             unfold aAck4; rw [g3]
           · show (aAck4 cfg _ x).S.tokens + 1 = a.S.tokens + 1
@@ -248,7 +266,7 @@ theorem frag_put {cfg : Cfg} (h : KI (some p) s a) (hinv : Inv a.S) (hkind : a.S
             rw [c8]
       · -- the first two duplicates only count
         refine ⟨s1, { a with S := a.S.countDup x.ackno, txs := a.txs }, [], fun cont => ?_, h1, ?_, by simp,
-          PutRel.of_S _ _ c8 c10⟩
+          PutRel.of_S _ _ c8 c10 ⟨c1, c3, c4, c5, c6, c11, c12⟩⟩
         · rw [hstart, if_neg d3, if_neg dgt, if_neg d0]
         · rw [if_neg d3, if_neg dgt, if_neg d0]
 
